@@ -37,6 +37,8 @@ func init() {
 		ID: "C13",
 		Rule: "inputs: generated HTML documents with 1-2 tables of 1-6 rows x 1-6 cells (colspan/rowspan in {absent,0,1,2,3,7}, missing cells, empty rows, thead/tbody/tfoot in any source order, col/colgroup with span and widths, captions, nested tables, Ahem text), " +
 			"width auto/px/% on table, columns and cells, table-layout auto/fixed, border-spacing with one or two values, border-collapse, paddings/borders, containing widths 20-2000px, 30% of the documents on short pages (tables fragment). " +
+			"One table in six is drawn from the 'every column constrained' family: automatic layout, px table width 100-800, a px width on every column (col, colgroup with span, or a single-column cell), no percentage, including columns without originating cell that are only covered by a colspan; " +
+			"counters fragments_all_constrained / all_constrained_surplus (width to assign provably above the sum of the columns' max-content widths: the surplus can only be placed by the last-resort distribution) / all_constrained_empty_origin / all_constrained_surplus_empty_origin count the fragments of that family that were checked. " +
 			"A case is non-trivial when at least one laid-out table fragment with at least two cells had every relation of the monitor evaluated; distinct = distinct document text.",
 		N: func(tier string) int {
 			if tier == "thorough" {
@@ -75,12 +77,18 @@ func init() {
 				"fragments_nested":        200 * k,
 				"tables_fragmented":       200 * k,
 				"fragments_with_caption":  300 * k,
+				// "every column constrained" family (constrained.go)
+				"fragments_all_constrained":            600 * k,
+				"all_constrained_surplus":              250 * k,
+				"all_constrained_empty_origin":         300 * k,
+				"all_constrained_surplus_empty_origin": 90 * k,
 			}
 		},
 		Assumptions: []string{
 			"the Ahem test font of /repo/resources_test is metric exact (every glyph 1em wide), so the minimum content width of a cell is known to the generator",
 			"slot assignment is compared with an independent model of the HTML table model (first free slot of the row, spans clipped to the row group, rowspan=0 to the end of the group)",
 			"nothing is asserted about which widths the automatic algorithm chooses, only the relations of the property",
+			"generator restrictions of the open findings stay in force: F3, F5, F6 (a column-spanning cell over columns that all carry a width is generated only when its minimum content provably fits in the px widths of the spanned column elements), F8/F8b (every column with a width is generated only with a px or auto table width and no percentage column), F11",
 		},
 		Batch: 100,
 	})
